@@ -23,15 +23,36 @@ pub fn try_version(t: &str) -> Result<Version, ()> {
     }
 }
 
-pub struct Rng(u64);
+/// splitmix64 plus a short memory of numbers handed out recently, so that "the same value in two
+/// places" and "a value next to another value" occur far more often than independent draws allow
+pub struct Rng {
+    s: u64,
+    recent: [u64; 6],
+    at: usize,
+}
 
 impl Rng {
     pub fn new(seed: u64) -> Self {
-        Rng(seed.wrapping_mul(0x9E3779B97F4A7C15) ^ 0xD1B54A32D192ED03)
+        Rng { s: seed.wrapping_mul(0x9E3779B97F4A7C15) ^ 0xD1B54A32D192ED03, recent: [0, 1, 2, 10, 255, 65536], at: 0 }
+    }
+    /// remember a number that went into the current case
+    pub fn note(&mut self, v: u64) -> u64 {
+        self.recent[self.at % 6] = v;
+        self.at += 1;
+        v
+    }
+    /// a recently used number, or one of its neighbours
+    pub fn echo(&mut self) -> u64 {
+        let v = self.recent[self.below(6)];
+        match self.below(6) {
+            0 => v.saturating_add(1),
+            1 => v.saturating_sub(1),
+            _ => v,
+        }
     }
     pub fn next(&mut self) -> u64 {
-        self.0 = self.0.wrapping_add(0x9E3779B97F4A7C15);
-        let mut z = self.0;
+        self.s = self.s.wrapping_add(0x9E3779B97F4A7C15);
+        let mut z = self.s;
         z = (z ^ (z >> 30)).wrapping_mul(0xBF58476D1CE4E5B9);
         z = (z ^ (z >> 27)).wrapping_mul(0x94D049BB133111EB);
         z ^ (z >> 31)
@@ -117,6 +138,16 @@ pub fn log_uniform(rng: &mut Rng, cap: u64) -> u64 {
 /// values at a power of two (or of ten) and its neighbours: where packed keys, fast paths and digit
 /// counts change
 pub fn boundary_value(rng: &mut Rng, cap: u64) -> u64 {
+    if rng.chance(1, 3) {
+        // a * 2^k + b with small a and b: where a division, a shift or a narrowing cast of a
+        // multiple of the value wraps
+        let a = 1 + rng.below(12) as u64;
+        let k = rng.below(64) as u32;
+        let b = rng.below(13) as u64;
+        let v = a.checked_shl(k).filter(|x| x >> k == a).unwrap_or(u64::MAX);
+        let v = if rng.chance(1, 4) { v.saturating_sub(b) } else { v.saturating_add(b) };
+        return v.min(cap);
+    }
     let base: u64 = if rng.chance(1, 2) {
         1u64 << rng.below(64)
     } else {
@@ -132,13 +163,22 @@ pub fn boundary_value(rng: &mut Rng, cap: u64) -> u64 {
 
 fn gen_component(rng: &mut Rng, wide: bool) -> u64 {
     let small = [0u64, 0, 1, 1, 2, 3, 9, 10, 11];
+    if rng.chance(1, 6) {
+        let v = rng.echo();
+        return if wide { v } else { v.min(MAX) };
+    }
+    let v = gen_component_fresh(rng, wide, &small);
+    rng.note(v)
+}
+
+fn gen_component_fresh(rng: &mut Rng, wide: bool, small: &[u64]) -> u64 {
     match rng.below(20) {
         0 | 1 => *rng.pick(&[MAX - 1, MAX]),
         2 | 3 if wide => *rng.pick(&[MAX + 1, u64::MAX, u64::MAX - 1, 1 << 32, (1 << 53) + 1]),
         4 | 5 => rng.next() % 1000,
         6 | 7 | 8 => log_uniform(rng, if wide { u64::MAX } else { MAX }),
         9 => boundary_value(rng, if wide { u64::MAX } else { MAX }),
-        _ => *rng.pick(&small),
+        _ => *rng.pick(small),
     }
 }
 
@@ -372,6 +412,17 @@ fn exhaustive(alphabet: &str, max_len: usize, f: &mut dyn FnMut(&str)) {
 // ---------------------------------------------------------------- range texts
 
 fn gen_small(rng: &mut Rng) -> String {
+    if rng.chance(1, 8) {
+        return rng.echo().min(MAX).to_string();
+    }
+    let t = gen_small_fresh(rng);
+    if let Ok(v) = t.parse::<u64>() {
+        rng.note(v);
+    }
+    t
+}
+
+fn gen_small_fresh(rng: &mut Rng) -> String {
     match rng.below(48) {
         40 | 41 | 42 | 43 | 44 | 45 => {
             let v = if rng.chance(1, 3) { boundary_value(rng, MAX) } else { log_uniform(rng, MAX) };
@@ -732,13 +783,24 @@ pub fn run_stream(name: &str, thorough: bool, rng: &mut Rng, o: &mut Out) {
                 o.vparse(&format!("1.2.3-{}.{}", big, big));
             }
             // multi-line inputs for location()
-            for t in ["1.2\n.3", "\n1.2.3", "1.\n\n2.3", "é\n1.2.x", "1.2.3\n\n", "v\n", "\t\n 1.2", "1.2.3-a\n+b", "😀", "1.2.😀", "1.2.3-😀", "1.2.3 \n x"] {
+            for t in ["1.2\n.3", "\n1.2.3", "1.\n\n2.3", "é\n1.2.x", "1.2.3\n\n", "v\n", "\t\n 1.2", "1.2.3-a\n+b", "😀", "1.2.😀", "1.2.3-😀", "1.2.3 \n x",
+                "1.2\r\n.3", "\r\n1.2.3", "1.2.3\r", "\r1.2.3", "1.2.3\u{2028}x", "1.2.3\u{85}", "1.2.3\u{b}4", "1.2.3\u{c}"] {
                 o.vparse(t);
             }
             for _ in 0..500 * scale {
                 let n = rng.below(600);
-                let s: String = (0..n).map(|_| *rng.pick(&['1', '.', '-', 'a', 'é', ' ', '\n', '+', '0'])).collect();
+                let s: String = (0..n).map(|_| *rng.pick(&['1', '.', '-', 'a', 'é', ' ', '\n', '+', '0', '\r', '\n'])).collect();
                 o.vparse(&s);
+            }
+            // over-long inputs whose error offset lies on a later line, with every kind of line break in front
+            for brk in ["\n", "\r\n", "\r", "\n\r", "\r\n\r\n", "\u{2028}", "\u{85}", "\n\n"] {
+                for lines in 1..4usize {
+                    for tail in [250usize, 256, 257, 300] {
+                        let t = format!("{}{}", format!("1.2.3{}", brk).repeat(lines), "a".repeat(tail));
+                        o.vparse(&t);
+                        o.vparse(&format!("{}é", t));
+                    }
+                }
             }
         }
         "vround" => {
@@ -863,6 +925,12 @@ pub fn run_stream(name: &str, thorough: bool, rng: &mut Rng, o: &mut Out) {
                 let lim = *rng.pick(&m);
                 o.vfrom3(rng.next() % (lim + 1), rng.next() % (lim + 1), rng.next() % (lim + 1));
                 o.vfrom4(rng.next() % (lim + 1), rng.next() % (lim + 1), rng.next() % (lim + 1), rng.next() % (lim + 1));
+            }
+            // random magnitudes, power-of-two/ten boundaries, repeated and neighbouring values
+            for _ in 0..3000 * scale {
+                let (a, b, c, d) = (gen_component(rng, false), gen_component(rng, false), gen_component(rng, false), gen_component(rng, false));
+                o.vfrom3(a, b, c);
+                o.vfrom4(a, b, c, d);
             }
         }
         "rparse_exh" => {
@@ -1047,6 +1115,57 @@ pub fn run_stream(name: &str, thorough: bool, rng: &mut Rng, o: &mut Out) {
                 let grid = version_grid(rng, &printed, 2);
                 for _ in 0..8 {
                     o.c02(&a, &b, rng.pick(&grid));
+                }
+            }
+        }
+        "setops_huge" => {
+            // operands with 33-80 alternatives each (more than 1024 pairs): chains of intervals that touch
+            // at inclusive/exclusive endpoints, nest, or leave gaps, the second operand shifted against the first
+            for i in 0..24 * scale {
+                let n = 33 + rng.below(48);
+                let m = 33 + rng.below(48);
+                let chain = |rng: &mut Rng, n: usize, off: u64, stride: u64| -> String {
+                    (0..n as u64)
+                        .map(|k| {
+                            let lo = off + k * stride;
+                            let hi = lo + 1 + rng.below(stride as usize + 1) as u64;
+                            let (l, u) = (*rng.pick(&[">=", ">"]), *rng.pick(&["<=", "<"]));
+                            format!("{}{}.0.0 {}{}.0.0", l, lo, u, hi)
+                        })
+                        .collect::<Vec<_>>()
+                        .join("||")
+                };
+                let stride = 2 + rng.below(3) as u64;
+                let ta = chain(rng, n, 0, stride);
+                // far above, touching the top of A at one endpoint, interleaved, or identical
+                let off = match i % 4 {
+                    0 => n as u64 * stride - stride + 1 + rng.below(2) as u64,
+                    1 => 1,
+                    2 => n as u64 * stride + 50,
+                    _ => 0,
+                };
+                let tb = chain(rng, m, off, stride);
+                if let (Ok(a), Ok(b)) = (try_range(&ta), try_range(&tb)) {
+                    o.setops(&ta, &a, &tb, &b);
+                    o.setops(&tb, &b, &ta, &a);
+                    // a single interval against the long union: below it, inside one alternative, in a
+                    // gap, spanning two alternatives, above it
+                    let top = n as u64 * stride;
+                    let k = rng.below(n) as u64 * stride;
+                    for t1 in [
+                        "0.0.0-0".to_string(),
+                        format!("{}.0.0", k),
+                        format!(">={}.2.0 <{}.3.0", k, k),
+                        format!(">{}.9.0 <{}.0.0-0", k + 1, k + stride),
+                        format!(">={}.0.0 <={}.0.0", k, k + stride),
+                        format!(">={}.0.0", top + 60),
+                        format!("<{}.0.0", k + 1),
+                    ] {
+                        if let Ok(b1) = try_range(&t1) {
+                            o.setops(&ta, &a, &t1, &b1);
+                            o.setops(&t1, &b1, &ta, &a);
+                        }
+                    }
                 }
             }
         }
@@ -1276,6 +1395,52 @@ fn dec_expr(toks: &mut std::slice::Iter<&str>) -> Option<Expr> {
 
 /// `op<TAB>args…[<TAB>old answer]`: evaluate the request again on the current crate.
 /// `nargs` per op tells where the arguments end.
+/// one fuzzer-found input through every operation it can feed
+pub fn corpus_case(kind: &str, s: &str, o: &mut Out) {
+    if kind == "version" {
+        let mut parts = s.splitn(2, '\n');
+        let ta = parts.next().unwrap_or("");
+        let tb = parts.next().unwrap_or("1.2.3");
+        o.vparse(ta);
+        o.vparse(tb);
+        o.vround(ta);
+        o.vcmpt(ta, tb);
+        if let (Ok(a), Ok(b)) = (try_version(ta), try_version(tb)) {
+            o.vcmp(&a, &b);
+            o.vdiff(&a, &b);
+            o.vdiff(&b, &a);
+            o.vfmt(&a);
+            o.vsort(&[a.clone(), b.clone(), a]);
+        }
+        return;
+    }
+    let mut parts = s.splitn(3, '\n');
+    let ta = parts.next().unwrap_or("");
+    let tb = parts.next().unwrap_or("*");
+    let tv = parts.next().unwrap_or("1.2.3");
+    o.rparse(ta);
+    o.rround(ta);
+    o.vparse(tv);
+    let v = try_version(tv).ok();
+    if let Ok(a) = try_range(ta) {
+        o.minv(ta, &a);
+        let printed = a.to_string();
+        let mut vs: Vec<Version> = versions_in(&printed).iter().flat_map(|x| neighbours(x)).take(24).collect();
+        if let Some(v) = &v {
+            vs.push(v.clone());
+        }
+        for x in &vs {
+            o.sat(ta, &a, x);
+        }
+        o.maxmin(ta, &a, &vs[..vs.len().min(9)]);
+        if let Ok(b) = try_range(tb) {
+            o.setops(ta, &a, tb, &b);
+        }
+    }
+    // (the AND law of op `c02` presupposes closed comparator lists, which arbitrary inputs are not)
+    let _ = tb;
+}
+
 pub fn replay_line(line: &str, o: &mut Out) {
     let f: Vec<&str> = line.split('\t').collect();
     let op = f[0];
